@@ -833,6 +833,7 @@ def run(ctx, prop):
     # --- normalize_merchant wrapper, transforms and the legacy CSV loop (C01; C02 uses the legacy tags too)
     wrapper_cases, wrapper_impl = [], []
     legacy_cases, legacy_impl = [], []
+    legacy_texts = []
     if prop in ('C01', 'C02') and not ctx.replay:
         m = 120 if ctx.quick else 4000
         with Budget() as b:
@@ -863,6 +864,7 @@ def run(ctx, prop):
                     ltxn = dict(txn, description=r.choice(UNICODE_DESCRIPTIONS))
                 rows = G.gen_csv_rules_grouped(r, ltxn) if i % 3 == 2 else G.gen_csv_rules(r, ltxn)
                 cpath = b.write(f'c{i % 8}.csv', G.render_csv_rules(rows))
+                legacy_texts.append(G.render_csv_rules(rows))
                 try:
                     limpl, lcase, _ = legacy_observe(cpath, ltxn)
                     legacy_cases.append(lcase); legacy_impl.append(limpl)
@@ -879,6 +881,16 @@ def run(ctx, prop):
             cf, nrows = cli_path_failures(r, b, 40 if ctx.quick else 1500)
         prop_fail.extend(cf)
         ctx.notes['statement_rows_through_parse_generic_csv_vs_normalize_merchant'] = nrows
+    if prop == 'C01' and not ctx.replay and legacy_texts:
+        # the legacy CSV files of this run, from their TEXT: load_merchant_rules against the loader model (Legacy.loadRules, C14 §8)
+        from . import legacy_loader as LL
+        with Budget() as b:
+            try:
+                lstats, _ = LL.file_stream(ctx, r, list(dict.fromkeys(legacy_texts)), b)
+                ctx.notes['legacy_csv_files_loaded_by_the_loader_model'] = lstats
+            except Exception as e:      # noqa
+                ctx.obligation('correspondence:load_merchant_rules-vs-Legacy.loadRules', 'correspondence', False,
+                               error=f'{type(e).__name__}: {e}'[:600])
     # --- run the model
     try:
         d = common.Driver()
